@@ -62,6 +62,9 @@ type Vocab struct {
 	// than in the reference tree was probably rewritten in single-exit style; its trailing `return` is then copied to
 	// the end of the branches that lead to it (tail duplication), which gives every exit its own values again.
 	Returns map[string]int `json:"returns"`
+	// IIFEs: "pkg|Func" -> number of immediately invoked function literals (`func() {…}()`, not under defer / go).
+	// A function that has more than in the reference tree had a block wrapped into one; those are inlined back.
+	IIFEs map[string]int `json:"iifes,omitempty"`
 }
 
 func sigText(ft *ast.FuncType) string {
@@ -158,6 +161,26 @@ func closureNames(body ast.Node) []string {
 	return out
 }
 
+// countIIFEs: calls whose function is a literal, leaving out the operands of defer and go statements.
+func countIIFEs(body ast.Node) int {
+	n := 0
+	skip := map[*ast.CallExpr]bool{}
+	ast.Inspect(body, func(x ast.Node) bool {
+		switch s := x.(type) {
+		case *ast.DeferStmt:
+			skip[s.Call] = true
+		case *ast.GoStmt:
+			skip[s.Call] = true
+		case *ast.CallExpr:
+			if _, ok := s.Fun.(*ast.FuncLit); ok && !skip[s] {
+				n++
+			}
+		}
+		return true
+	})
+	return n
+}
+
 func countReturns(body ast.Node) int {
 	n := 0
 	walkNoLit(body, func(x ast.Node) {
@@ -202,7 +225,7 @@ func closureSigs(body ast.Node) map[string]string {
 
 // ScanNames parses the non-test Go files below dir (content from overlay when present) and returns their names.
 func ScanNames(dir string, overlay map[string][]byte) (*Vocab, error) {
-	v := &Vocab{Funcs: map[string][]string{}, Closures: map[string]map[string][]string{}, Sigs: map[string]string{}, Ranges: map[string][]string{}, Vars: map[string][]string{}, Returns: map[string]int{}}
+	v := &Vocab{Funcs: map[string][]string{}, Closures: map[string]map[string][]string{}, Sigs: map[string]string{}, Ranges: map[string][]string{}, Vars: map[string][]string{}, Returns: map[string]int{}, IIFEs: map[string]int{}}
 	fset := token.NewFileSet()
 	err := filepath.Walk(dir, func(path string, fi os.FileInfo, err error) error {
 		if err != nil {
@@ -249,6 +272,9 @@ func ScanNames(dir string, overlay map[string][]byte) (*Vocab, error) {
 					return true
 				})
 				v.Returns[rel+"|"+name] = countReturns(fd.Body)
+				if k := countIIFEs(fd.Body); k > 0 {
+					v.IIFEs[rel+"|"+name] = k
+				}
 			}
 			v.Funcs[rel] = append(v.Funcs[rel], name)
 			v.Sigs[rel+"|"+name] = sigText(fd.Type)
@@ -420,6 +446,12 @@ func Normalise(cfg Config, voc *Vocab) (*NormResult, error) {
 	for key, n := range cur.Returns {
 		if want, has := voc.Returns[key]; has && n < want {
 			newRangePkgs[strings.SplitN(key, "|", 2)[0]] = true
+		}
+	}
+	for key, n := range cur.IIFEs {
+		pk := strings.SplitN(key, "|", 2)[0]
+		if _, pkKnown := voc.Funcs[pk]; pkKnown && n > voc.IIFEs[key] {
+			newRangePkgs[pk] = true
 		}
 	}
 	renames := lastRenames
@@ -824,6 +856,14 @@ func (in *inliner) resolve(call *ast.CallExpr) (*calleeInfo, ast.Expr) {
 		fun0 = ix.X
 	}
 	switch fun := fun0.(type) {
+	case *ast.FuncLit:
+		// an immediately invoked function literal: `x, err := func() (T, error) { … }()`
+		fd := in.enclosingDecl(fun.Pos())
+		if fd == nil || fd.Body == nil || in.voc == nil || countIIFEs(fd.Body) <= in.voc.IIFEs[in.rel+"|"+declName(fd)] {
+			return nil, nil
+		}
+		f, _ := in.fileOf(fun.Pos())
+		return &calleeInfo{name: declName(fd) + "$literal", typ: fun.Type, body: fun.Body, node: fun, file: f, obj: nil}, nil
 	case *ast.Ident:
 		switch o := info.Uses[fun].(type) {
 		case *types.Func:
@@ -887,7 +927,7 @@ func (in *inliner) eligible(c *calleeInfo) string {
 			}
 		case *ast.Ident:
 			if o := info.Uses[x]; o != nil {
-				if o == c.obj {
+				if o == c.obj && c.obj != nil {
 					reason = "self reference"
 				}
 				if b, ok := o.(*types.Builtin); ok && b.Name() == "recover" {
@@ -1215,9 +1255,6 @@ func operandExprs(s ast.Stmt) []ast.Expr {
 
 // fileEdits computes the inlining edits of one file (at most one call per statement per round).
 func (in *inliner) fileEdits(f *ast.File, fname string, src []byte) []textEdit {
-	if len(in.newFuncs) == 0 && len(in.newClosures) == 0 {
-		return nil
-	}
 	_ = fname
 	parents := map[ast.Node]ast.Node{}
 	var stack []ast.Node
@@ -1437,6 +1474,10 @@ func (in *inliner) isTail(c *calleeInfo, call *ast.CallExpr, s0 ast.Stmt, parent
 		calleeSig, _ = o.Type().(*types.Signature)
 	case *types.Var:
 		calleeSig, _ = o.Type().Underlying().(*types.Signature)
+	case nil:
+		if fl, isLit := c.node.(*ast.FuncLit); isLit {
+			calleeSig, _ = info.TypeOf(fl).(*types.Signature)
+		}
 	}
 	if isig, _ := in.instanceOf(call); isig != nil {
 		calleeSig = isig
@@ -1534,6 +1575,10 @@ func (in *inliner) expand(c *calleeInfo, call *ast.CallExpr, recvX ast.Expr, tai
 		sig, _ = o.Type().(*types.Signature)
 	case *types.Var:
 		sig, _ = o.Type().Underlying().(*types.Signature)
+	case nil:
+		if fl, isLit := c.node.(*ast.FuncLit); isLit {
+			sig, _ = in.pk.TypesInfo.TypeOf(fl).(*types.Signature)
+		}
 	}
 	// a generic function: everything is taken from the instance at this call; the type parameters become local aliases
 	generic := c.typ.TypeParams != nil && len(c.typ.TypeParams.List) > 0
